@@ -59,9 +59,10 @@ auto dr_numerical(auto && f, auto && x)
           eps_j *= abs(w[j]);
           if (eps_j == Scalar(0.)) { eps_j = eps; }
         }
-        w             = rplus<W>(w, (eps_j * Eigen::Vector<Scalar, Nx_j>::Unit(nx_j, j)).eval());
-        J.col(I0 + j) = rminus<Result>(std::apply(f, x_nc), fval) / eps_j;
-        w             = rplus<W>(w, (-eps_j * Eigen::Vector<Scalar, Nx_j>::Unit(nx_j, j)).eval());
+        const PlainObject<W> w_orig = w;
+        w                           = rplus<W>(w, (eps_j * Eigen::Vector<Scalar, Nx_j>::Unit(nx_j, j)).eval());
+        J.col(I0 + j)               = rminus<Result>(std::apply(f, x_nc), fval) / eps_j;
+        w                           = w_orig;
       }
       I0 += nx_j;
     });
@@ -95,9 +96,10 @@ auto dr_numerical(auto && f, auto && x)
             if (eps0 == 0.) { eps0 = sqrteps; }
           }
 
-          w0               = rplus<W0>(w0, eps0 * Eigen::Vector<Scalar, Nx_i0>::Unit(nx_i0, k0));
-          const Result F10 = std::apply(f, x_nc);
-          w0               = rplus<W0>(w0, -eps0 * Eigen::Vector<Scalar, Nx_i0>::Unit(nx_i0, k0));
+          const PlainObject<W0> w0_orig = w0;
+          w0                            = rplus<W0>(w0, eps0 * Eigen::Vector<Scalar, Nx_i0>::Unit(nx_i0, k0));
+          const Result F10              = std::apply(f, x_nc);
+          w0                            = w0_orig;
 
           const Eigen::Matrix<Scalar, Ny, 1> d1 = rminus(F10, fval);
 
@@ -110,13 +112,14 @@ auto dr_numerical(auto && f, auto && x)
               if (eps1 == 0.) { eps1 = sqrteps; }
             }
 
-            // do this in order to ensure we return to same point on spaces with non-zero brackets
-            w1               = rplus<W1>(w1, eps1 * Eigen::Vector<Scalar, Nx_i1>::Unit(nx_i1, k1));
-            const Result F01 = std::apply(f, x_nc);
-            w0               = rplus<W0>(w0, eps0 * Eigen::Vector<Scalar, Nx_i0>::Unit(nx_i0, k0));
-            const Result F11 = std::apply(f, x_nc);
-            w0               = rplus<W0>(w0, -eps0 * Eigen::Vector<Scalar, Nx_i0>::Unit(nx_i0, k0));
-            w1               = rplus<W1>(w1, -eps1 * Eigen::Vector<Scalar, Nx_i1>::Unit(nx_i1, k1));
+            // restore from saved copies (w0 and w1 may be the same object) so that we return to exactly the same point
+            const PlainObject<W1> w1_orig = w1;
+            w1                            = rplus<W1>(w1, eps1 * Eigen::Vector<Scalar, Nx_i1>::Unit(nx_i1, k1));
+            const Result F01              = std::apply(f, x_nc);
+            w0                            = rplus<W0>(w0, eps0 * Eigen::Vector<Scalar, Nx_i0>::Unit(nx_i0, k0));
+            const Result F11              = std::apply(f, x_nc);
+            w0                            = w0_orig;
+            w1                            = w1_orig;
 
             const Eigen::Matrix<Scalar, Ny, 1> d2 = (rminus(F11, F01) - d1) / eps0 / eps1;
             for (auto j = 0u; j < ny; ++j) { H(I0 + k0, j * nx + I1 + k1) = d2(j); }
